@@ -31,9 +31,9 @@ proof fn witness_poll_signal_post()
 }
 
 // ---- flush(): the non-blocking drain of the self-pipe (unbounded number of reads)
-/// every recv is on the read end, with the whole buffer, and MSG_DONTWAIT (never blocks)
+/// every recv is on the read end, and with MSG_DONTWAIT (never blocks)
 pub open spec fn flush_calls_ok(tr: Seq<RecvEv>, fd: i32) -> bool {
-    forall|i: int| 0 <= i < tr.len() ==> (#[trigger] tr[i]).fd == fd && tr[i].flags == libc::MSG_DONTWAIT && tr[i].len == 1024
+    forall|i: int| 0 <= i < tr.len() ==> (#[trigger] tr[i]).fd == fd && tr[i].flags == libc::MSG_DONTWAIT
 }
 /// the drain continues exactly as long as bytes come: all results but the last are > 0
 pub open spec fn flush_all_but_last_positive(tr: Seq<RecvEv>) -> bool {
